@@ -1779,12 +1779,12 @@ func specTellable(m LogWriter) bool {
 //@   props C02 C03 C13
 //@   requires forall(k, 0, len(s), !isnil(s[k]) && !typeis(s[k], LWs))
 //@   assigns ghost.trN, ghost.trace, ghost.trTold
-//@   ensures [C02.each] ghost.trN == old(ghost.trN) + len(s)
-//@   ensures [C02.each] forall(k, 0, len(s), ghost.trace[old(ghost.trN)+k] == uf("evWrite", ident(s[k]), ident(p)) && ghost.trTold[old(ghost.trN)+k] == ghost.told[ident(s[k])])
-//@   ensures [C02.appendonly] forall(k, 0, old(ghost.trN), ghost.trace[k] == old(ghost.trace[k]) && ghost.trTold[k] == old(ghost.trTold[k]))
-//@   loop 1 invariant [C02.each] rangeindex >= -1 && (rangeindex < len(s) || rangeindex == -1) && ghost.trN == old(ghost.trN) + rangeindex + 1
-//@   loop 1 invariant [C02.each] forall(k, 0, rangeindex+1, ghost.trace[old(ghost.trN)+k] == uf("evWrite", ident(s[k]), ident(p)) && ghost.trTold[old(ghost.trN)+k] == ghost.told[ident(s[k])])
-//@   loop 1 invariant [C02.appendonly] forall(k, 0, old(ghost.trN), ghost.trace[k] == old(ghost.trace[k]) && ghost.trTold[k] == old(ghost.trTold[k]))
+//@   ensures [C02.C03.C13.each] ghost.trN == old(ghost.trN) + len(s)
+//@   ensures [C02.C03.C13.each] forall(k, 0, len(s), ghost.trace[old(ghost.trN)+k] == uf("evWrite", ident(s[k]), ident(p)) && ghost.trTold[old(ghost.trN)+k] == ghost.told[ident(s[k])])
+//@   ensures [C02.C13.appendonly] forall(k, 0, old(ghost.trN), ghost.trace[k] == old(ghost.trace[k]) && ghost.trTold[k] == old(ghost.trTold[k]))
+//@   loop 1 invariant [C02.C03.C13.each] rangeindex >= -1 && (rangeindex < len(s) || rangeindex == -1) && ghost.trN == old(ghost.trN) + rangeindex + 1
+//@   loop 1 invariant [C02.C03.C13.each] forall(k, 0, rangeindex+1, ghost.trace[old(ghost.trN)+k] == uf("evWrite", ident(s[k]), ident(p)) && ghost.trTold[old(ghost.trN)+k] == ghost.told[ident(s[k])])
+//@   loop 1 invariant [C02.C13.appendonly] forall(k, 0, old(ghost.trN), ghost.trace[k] == old(ghost.trace[k]) && ghost.trTold[k] == old(ghost.trTold[k]))
 
 // ---- the delivery chain: print -> printImpl -> printOut -> LWs.Write
 
@@ -1873,10 +1873,6 @@ func specTellable(m LogWriter) bool {
 //@   requires s != nil && 0 <= s.off && s.off <= len(s.buf)
 //@   assigns s.buf, s.off, s.lastRead, s.buf[:]
 //@   ensures [C02.inv] 0 <= s.off && s.off <= len(s.buf) && implies(old(s.off) == 0, s.off == 0)
-
-
-
-
 
 // ---- generated by /verif/tools/gen_auto.py: synthesized contracts for the no-panic sweep of printImpl's call tree
 //@ func convertLevelToLogSlog
@@ -2194,7 +2190,6 @@ func specTellable(m LogWriter) bool {
 //@ func (*PrintCtx).pcAppendRune
 //@   props C02
 //@   auto
-
 
 // ---------------------------------------------------------------- C19 buffer API (generated)
 // ---- generated by /verif/tools/gen_c19.py: the bytes.Buffer specification, for logg's PrintCtx ...
@@ -2679,4 +2674,3 @@ func specTellable(m LogWriter) bool {
 //@ func bytes::NewBufferString
 //@   props C19
 //@   ensures [C19.newstring] result != nil && fresh(result) && result.off == 0 && result.lastRead == opInvalid && len(result.buf) == len(s) && contentid(result.buf) == contentid(s)
-
